@@ -13,6 +13,10 @@ Init == /\ N \in 0..MaxN /\ NL \in SUBSET (0..(MaxN-1)) /\ \A p \in NL : p < N
         /\ RInit0
 Spec == Init /\ [][RNext]_rvars
 
+(* C03, design level: the reader terminates on every finite stream under every schedule - zero-length
+   reads are bounded by Retry, every other read hands out at least one cell or ends the stream *)
+FairSpec == Init /\ [][RNext]_rvars /\ WF_rvars(RNext)
+Terminates == <>(pc = "end")
 Emit == pc = "end" =>
   PrintT("CASE " \o ToJson([B |-> B, Retry |-> Retry, N |-> N, NL |-> NL, fin |-> fin, withData |-> withData,
                             reads |-> reads, lines |-> lines]))
